@@ -369,7 +369,7 @@ def flex_validator(F, R):
     R.ob("E1.err-offset", fn, "item", okp,
          "%s: an item's error is shifted by the position of its slot (read before the step) + OFFSET_SIZE%s" % (fn, "" if okp else " -- found %s%s" % (offs, why)),
          where=b["span"])
-    if R.pid in ("C06", "C10"):   # classification of errors (framing contract); positions and accepted sets are not affected by it
+    if R.pid in ("C06", "C07", "C08", "C09", "C10"):   # classification of errors (framing contract: the receive loops wait for more bytes exactly on InsufficientSize); positions and accepted sets are not affected by it
       R.ob("K1.sealed-shortfall", fn, "item-kind", oks and okk,
            "%s: the validation error of a sealed (not last) item is never InsufficientSize: its extent is fixed, so a shortfall inside it is reported as "
            "InvalidData (sealed = the walker still holds data after the step); every other kind, and the open last item's shortfall, pass unchanged%s" % (fn, why),
@@ -671,6 +671,35 @@ def flex_writers(F, R):
                 tt = body.term(x)
                 if isinstance(tt, dict) and "call" in tt and tt["call"].get("def", "").endswith("Emplacer::emplace") and tt["call"]["args"][0] != "L":
                     bad.append(x)
+    # the predecessor is sealed only once the new item exists: sealing earlier would point its slot at a successor slot that is never
+    # written when the new item's emplacer fails (the chain would run into stale bytes)
+    seal_bbs = [sb for sb, _, v2, _ in ss if "prev" in v2]
+    ok_sa = len(ie) == 1 and bool(seal_bbs) and all(body.dominates(ie[0][0], sb) for sb in seal_bbs)
+    if ok_sa:
+        # ... on the success edge of the item emplacer
+        okedge = False
+        for sbb, st in body.switches():
+            c = body.expr_of_operand(st["switch"])
+            if c[0] == "discr" and "Emplacer::emplace(" in ab(canon(c)) and "Iterator::next" in ab(canon(c)):
+                cont = [tb for v, tb in st["targets"] if int(v) == 0]
+                if cont and all(body.edge_dominates((sbb, cont[0]), sb) for sb in seal_bbs):
+                    okedge = True
+        ok_sa = okedge
+    R.ob("R3.seal-after-item", fn, "order", ok_sa,
+         "%s: the predecessor's slot is sealed only after the new item was built successfully (a failing item leaves the predecessor open: "
+         "the chain never points at a slot that was not written)" % fn, where=b["span"])
+    # the working range is the view's own bytes (the slice floored to the vector's ALIGN), as size() / validate / push see it: an item may
+    # not reach into the partial tail behind the last multiple of ALIGN
+    dd = set()
+    for bb_, i_, s_ in body.assigns():
+        if not s_["l"]["p"] and body.local_name(s_["l"]["v"]) == "data":
+            dd.add(ab(canon(body.expr_of_rvalue(s_["r"]))))
+    inits = [x for x in dd if "%data" not in x]
+    ok_w = len(inits) == 1 and (inits[0] == "FlatUnsized::as_mut_bytes(THISM)" or
+                                re.fullmatch(r".*index_mut\(\$bytes, RangeTo\{utils::floor_mul\(slice::len\(\$bytes\), ALIGN\)\}\)", inits[0]) is not None)
+    R.ob("P6.fromiter-window", fn, "range", ok_w,
+         "%s: items are laid out inside the bytes of the view made from the slice (length floored to the vector's ALIGN), not the raw slice%s" % (
+             fn, "" if ok_w else " -- found %s" % sorted(inits)), where=b["span"])
     R.ob("R3.mark-then-seal", fn, "order", not bad and len(ss) == 3,
          "%s: the newest item is marked as last and its predecessor sealed back to back (no fallible step in between)" % fn, where=b["span"])
     seal_formula(F, R, b, body, fn)
@@ -861,7 +890,11 @@ def filling_emplacers(F, R):
             em = [c for c in em if c[0] not in refusal]
         ok = len(em) == 1 and ab(canon(body.expr_of_call(em[0][1], 0, em[0][0])[3][1])) == "$bytes"
         ok = ok and fills and all(body.dominates(em[0][0], f) for f in fills)
-        R.ob("E3.empty-first", fn, "reset", bool(ok), "%s: the target is reset to empty (Empty emplacer on the same bytes) before anything is appended" % fn, where=b["span"])
+        # ... and no success without it: every Ok return lies behind the reset (an early Ok, e.g. for an empty source, would hand back the old content)
+        ok_bbs = [bb for bb, r in ret_stores(body) if r.startswith("Ok{")]
+        ok = ok and ok_bbs and all(body.dominates(em[0][0], o) for o in ok_bbs)
+        R.ob("E3.empty-first", fn, "reset", bool(ok), "%s: the target is reset to empty (Empty emplacer on the same bytes) before anything is appended, and every "
+             "successful return lies behind that reset" % fn, where=b["span"])
         rs = [r for _, r in ret_stores(body)]
         if known_len:
             okr = len(g) == 1 and em and body.edge_dominates((g[0][0], g[0][3]), em[0][0]) and \
@@ -964,6 +997,12 @@ def filling_emplacers(F, R):
                     if not handled:
                         ok4 = False
                         why.append("a refused push does not lead straight to Err(InsufficientSize) (or an accepted one does not continue with the next item)")
+                    # ... and nothing else refuses: an upper size_hint is only a bound (filter, take_while, chain ...), so content that fits must
+                    # not be turned away on its account; the only error of this emplacer's own making is the refused push
+                    own_err = [bb for bb, r in ret_stores(body) if r.startswith("Err{")]
+                    if not all(body.edge_dominates(some_edge, e) and body.dominates(pbb, e) for e in own_err):
+                        ok4 = False
+                        why.append("an error of its own is returned without a refused push (content that fits may be turned away)")
             # a lower-bound size_hint cannot decide "does not fit", so there is no refusal before the reset for such a source: every
             # Err exit of its own comes after the reset, which is what keeps a composite valid when this emplacer fails as its tail (C18).
             err_bbs = [bb for bb, r in ret_stores(body) if r.startswith("Err{")]
